@@ -272,3 +272,81 @@ func (e *Emitter) rawEmit(op, input, goOut string) {
 }
 
 func (e *Emitter) tally(k string) { e.hist[k]++ }
+
+// ---- boundary sizes ----
+// Loops that work in blocks (4096 ordinates, 1024 terms, 8192 floats ...) are only exercised by
+// inputs around those sizes, which random small geometries never reach. Every run therefore
+// includes, per property, a fixed sweep of (stride, number of coordinates) pairs: exact powers
+// of two in coordinates and in ordinates, one past, and counts whose ordinate total straddles a
+// block boundary mid-coordinate (1366 x 3 = 4098).
+func bigCases(thorough bool) [][2]int {
+	cases := [][2]int{
+		{2, 1024}, {2, 2048}, {2, 4096}, {2, 8192},
+		{3, 1024}, {3, 1366}, {3, 2048}, {3, 4096},
+		{4, 1024}, {4, 2048}, {4, 2049},
+		{5, 820}, {5, 1024},
+	}
+	if thorough {
+		for _, s := range []int{2, 3, 4} {
+			for _, n := range []int{255, 256, 257, 511, 512, 513, 1023, 1025, 2047, 3072, 4095, 4097, 8191, 8193, 16384} {
+				cases = append(cases, [2]int{s, n})
+			}
+		}
+	}
+	return cases
+}
+
+// bigFlat: n coordinates of the given stride with pairwise distinct, exactly representable
+// ordinates (so that a shifted, dropped or zeroed block is visible), on a gentle zig-zag.
+func bigFlat(stride, n int) []float64 {
+	f := make([]float64, 0, stride*n)
+	for i := 0; i < n; i++ {
+		for j := 0; j < stride; j++ {
+			v := float64(i*stride+j) + 0.5
+			if j == 1 && i%2 == 1 {
+				v += 3
+			}
+			f = append(f, v)
+		}
+	}
+	return f
+}
+
+func coordsOfFlat(stride int, f []float64) []geom.Coord {
+	cs := make([]geom.Coord, 0, len(f)/stride)
+	for i := 0; i+stride <= len(f); i += stride {
+		cs = append(cs, geom.Coord(f[i:i+stride:i+stride]))
+	}
+	return cs
+}
+
+// ---- hardest inputs for exact predicates ----
+// unimodular: two integer vectors u, v with u x v = +-1 and entries of about the requested size,
+// built as a product of elementary continued-fraction steps with small partial quotients (1s give
+// Fibonacci pairs, 2s Pell pairs: the longest Euclidean descents for their size). Points p, p+u,
+// p+u+v are as close to collinear as integer points can be without being collinear, and a
+// determinant-sign routine needs its full reduction depth on (u, v).
+func (r *Rng) unimodular(maxBits int) (ux, uy, vx, vy int64) {
+	ux, uy, vx, vy = 1, 0, 0, 1
+	limit := int64(1) << uint(maxBits)
+	mode := r.Intn(4) // 0: all ones, 1: all twos, 2..3: mixed small quotients
+	for {
+		q := int64(1)
+		switch mode {
+		case 1:
+			q = 2
+		case 2, 3:
+			q = int64(1 + r.Intn(3))
+			if r.chance(1, 10) {
+				q = int64(1 + r.Intn(50))
+			}
+		}
+		// (u, v) <- (q*u + v, u)
+		nx, ny := q*ux+vx, q*uy+vy
+		if nx >= limit || ny >= limit {
+			break
+		}
+		ux, uy, vx, vy = nx, ny, ux, uy
+	}
+	return
+}
